@@ -31,6 +31,16 @@ INSTRUMENT = [
     (PersistentRemoteWorker, ["do_work", "_send_result", "_cleanup", "_fetch_results", "_release_self"]),
 ]
 
+# parent-side API methods whose statements become points when a harness wants the *caller* to be slow between two statements
+PARENT_INSTRUMENT = [
+    (ThreadWorker, ["terminate", "wait", "_start"]),
+    (ProcessWorker, ["terminate", "wait", "_start"]),
+    (RemoteWorker, ["terminate", "wait", "_start"]),
+    (PersistentThreadWorker, ["terminate", "wait", "close", "_start"]),
+    (PersistentProcessWorker, ["terminate", "wait", "close", "_start"]),
+    (PersistentRemoteWorker, ["terminate", "wait", "close", "_start"]),
+]
+
 _LABELS = {}
 
 # class-level containers of the worker classes as they are at import time: anything else (e.g. a cache added to a
@@ -65,12 +75,15 @@ def is_persistent(kind):
 
 
 class World:
-    def __init__(self, server=False, server_kwargs=None):
+    def __init__(self, server=False, server_kwargs=None, parent_points=False):
         self.server_kwargs = dict(server_kwargs or {})
+        self.parent_points = parent_points
         self.sim = simmod.new_sim()
         simos.install(self.sim)
         global _LABELS
         _LABELS = inject.instrument_all(INSTRUMENT)
+        if self.parent_points:
+            inject.instrument_all(PARENT_INSTRUMENT)
         reset_class_state()
         self.server = None
         self.server_actor = None
@@ -197,6 +210,35 @@ class Landing:
 
     def release(self):
         self.released = True
+
+
+class ParentDelay:
+    """The calling (main) actor is slow at its k-th statement inside one of the parent-side API methods named by ``part`` (e.g.
+    '.terminate:'): it sleeps ``delay`` model seconds there, so every other actor gets to run in between.  Needs
+    World(parent_points=True).  Chains with a Landing installed before it."""
+
+    def __init__(self, world, part, k, delay=2.0):
+        self.sim = world.sim
+        self.part = part
+        self.k = k
+        self.delay = delay
+        self.count = 0
+        self.fired = False
+        self.label = None
+        self.prev = self.sim.point_hook
+        self.sim.point_hook = self.hook
+
+    def hook(self, a, label, async_ok=True):
+        if self.prev is not None:
+            self.prev(a, label, async_ok)
+        if a is not self.sim.main or not async_ok or self.fired or self.part not in label:
+            return
+        i = self.count
+        self.count += 1
+        if i == self.k:
+            self.fired = True
+            self.label = label
+            self.sim.sleep(self.delay)
 
 
 def frontend_actor(a):
